@@ -141,3 +141,23 @@ def descendants(s, root_proc):
                 break
             q = q.parent
     return out
+
+
+def break_connections(w, e=None, which=('_socket', '_ctrl_sock')):
+    """network fault on the parent side of a remote worker: its TCP connections time out (ETIMEDOUT) as after a silent
+    loss of the peer host"""
+    import errno
+    from simos import kernel
+    s = cur_sim()
+    n = 0
+    for name in which:
+        sk = getattr(w, name, None)
+        if sk is None or getattr(sk, '_closed', True):
+            continue
+        try:
+            ofd = kernel.lookup(sk._owner, sk._fd)
+        except OSError:
+            continue
+        if kernel.inject_conn_error(s, ofd, e or errno.ETIMEDOUT):
+            n += 1
+    return n
